@@ -9,4 +9,9 @@ theorem C18_extracted_boot_format :
     ∀ s ∈ Fmt.formatsOf "efivarfs" "bootorder.Unmarshal", Fmt.BootFmtOk (Fmt.parse s.toList) = true := by
   decide
 
+/-- the same for the legacy package-level `efi.GetBootOrder` (F24 repair: it used `Boot%04x\n`) -/
+theorem C18_extracted_legacy_boot_format :
+    ∀ s ∈ Fmt.formatsOf "efi" "GetBootOrder", Fmt.BootFmtOk (Fmt.parse s.toList) = true := by
+  decide
+
 end GoUefi.C18
